@@ -9,7 +9,7 @@ use ast::ast;
 
 use crate::hir::SourceFileAst;
 use crate::pipeline::compile_error;
-use crate::pipeline::pipeline::{CompilationError, parse_ast_file};
+use crate::pipeline::pipeline::{CompilationError, parse_ast_file_located};
 
 pub trait PackageLayout {
     fn root_package_name(&self) -> &str;
@@ -116,7 +116,7 @@ fn load_package(
         }
         let src = fs::read_to_string(&path)
             .map_err(|err| compile_error(format!("failed to read {}: {}", path.display(), err)))?;
-        let ast = parse_ast_file(&path, &src)?;
+        let ast = parse_ast_file_located(&path, &src)?;
         if let Some(existing) = &package_name {
             if &ast.package.0 != existing {
                 return Err(compile_error(format!(
